@@ -1319,4 +1319,631 @@ Section SIM.
     pose proof (F2_kv_get _ _ _ k F) as HG.
     destruct (kv_get l k), (kv_get pl k); try contradiction; auto. constructor.
   Qed.
+
+  (* ---------------- statements *)
+
+  Lemma res_rel_bind : forall {X Y X' Y'} (R : X -> Y -> Prop) (R' : X' -> Y' -> Prop) m p f g,
+    res_rel R m p -> (forall a b, R a b -> res_rel R' (f a) (g b)) -> res_rel R' (bind m f) (bind p g).
+  Proof.
+    intros. destruct p; simpl in *.
+    - destruct H as (a0 & -> & HR). simpl. auto.
+    - subst. reflexivity.
+    - subst. reflexivity.
+    - subst. reflexivity.
+  Qed.
+
+  Lemma val_plus_sim : forall h lv plv rv prv, A h lv plv -> A h rv prv ->
+    res_rel (VR h) (val_plus c o h lv rv) (p_plus plv prv).
+  Proof.
+    intros h lv plv rv prv HL HR.
+    inversion HL; subst.
+    - inversion HR; subst; simpl; auto.
+      destruct (int64_ok (z + z0)); simpl; auto.
+      eexists; split; [reflexivity|]. split; simpl; auto using keeps_refl. constructor.
+    - simpl. destruct rv; reflexivity.
+    - apply (arr_plus_sim h (VArrS l) pl rv prv); auto.
+    - apply (arr_plus_sim h (VArrB s) pl rv prv); auto.
+    - simpl. rewrite (is_map_abs _ _ _ HR). destruct prv; simpl; auto.
+      apply (map_append_sim h (VMapS l) pl rv l0); auto.
+    - simpl. rewrite (is_map_abs _ _ _ HR). destruct prv; simpl; auto.
+      apply (map_append_sim h (VMapB p) pl rv l0); auto.
+  Qed.
+
+  Lemma val_idx_set_sim : forall h xv pxv i v pv, A h xv pxv -> A h v pv ->
+    res_rel (VR h) (val_idx_set c o h xv i v) (p_idx_set pxv i pv).
+  Proof.
+    intros h xv pxv i v pv HX HV. inversion HX; subst; simpl; auto.
+    - apply (arr_idx_set_sim h (VArrS l) pl i v pv); auto.
+    - apply (arr_idx_set_sim h (VArrB s) pl i v pv); auto.
+    - apply (map_idx_set_sim h (VMapS l) pl i v pv); auto.
+    - apply (map_idx_set_sim h (VMapB p) pl i v pv); auto.
+  Qed.
+
+  Lemma val_get_sim : forall h yv pyv i, A h yv pyv ->
+    res_rel (A h) (val_get h yv i) (p_get pyv i).
+  Proof.
+    intros h yv pyv i HY. inversion HY; subst; simpl; auto.
+    - eexists; split; eauto; constructor.
+    - apply (arr_get_sim h (VArrS l) pl i); auto.
+    - apply (arr_get_sim h (VArrB s) pl i); auto.
+    - apply (map_get_sim h (VMapS l) pl i); auto.
+    - apply (map_get_sim h (VMapB p) pl i); auto.
+  Qed.
+
+  Lemma val_len_abs : forall h v p, A h v p -> val_len h v = Ok (p_len p).
+  Proof.
+    intros h v p H. inversion H; subst; simpl; auto.
+    - f_equal. apply (arr_len_abs h (VArrS l) pl H).
+    - f_equal. apply (arr_len_abs h (VArrB s) pl H).
+    - apply (map_len_abs h (VMapS l) pl H).
+    - apply (map_len_abs h (VMapB p0) pl H).
+  Qed.
+
+  Lemma range_norm_ok : forall n l r a b, range_norm n l r = Ok (a, b) -> a <= b /\ b <= n.
+  Proof.
+    unfold range_norm. intros n l r a b.
+    set (l1 := if (l <? 0)%Z then (Z.of_nat n + l)%Z else l).
+    set (r1 := if (r <? 0)%Z then (Z.of_nat n + r)%Z else r).
+    destruct (r1 <? l1)%Z eqn:E; [discriminate|].
+    intros H. inversion H; subst. clear H. apply Z.ltb_ge in E.
+    split; lia.
+  Qed.
+
+  (* binding stores *)
+  Definition AbsStore (h : heap) (s : list (var * val)) (ps : list (var * pval)) : Prop :=
+    Forall2 (fun a b => fst a = fst b /\ A h (snd a) (snd b)) s ps.
+
+  Lemma AbsStore_keeps : forall h h' s ps, AbsStore h s ps -> keeps (length h) h h' -> AbsStore h' s ps.
+  Proof.
+    intros. eapply F2_impl; [|eauto]. intros a b [H1 H2]. split; auto. eapply Abs_keeps; eauto.
+  Qed.
+
+  Lemma lookup_abs : forall h s ps x, AbsStore h s ps ->
+    match lookup s x, lookup ps x with
+    | Some v, Some p => A h v p
+    | None, None => True
+    | _, _ => False
+    end.
+  Proof.
+    intros h s ps x H. induction H as [|[k1 v1] [k2 p2] t pt [H1 H2] HF IH]; simpl; auto.
+    simpl in *. subst. destruct (Nat.eqb k2 x); auto.
+  Qed.
+
+  Lemma bind_var_abs : forall h s ps x v p, AbsStore h s ps -> A h v p -> AbsStore h (bind_var s x v) (bind_var ps x p).
+  Proof.
+    intros h s ps x v p H HV. induction H as [|[k1 v1] [k2 p2] t pt [H1 H2] HF IH]; simpl.
+    - constructor; [split; auto|constructor].
+    - simpl in *. subst. destruct (Nat.eqb k2 x); constructor; auto; split; auto.
+  Qed.
+
+  Lemma unbind_abs : forall h s ps x, AbsStore h s ps -> AbsStore h (unbind s x) (unbind ps x).
+  Proof.
+    intros h s ps x H. induction H as [|[k1 v1] [k2 p2] t pt [H1 H2] HF IH]; simpl; [constructor|].
+    simpl in *. subst. destruct (Nat.eqb k2 x); auto. constructor; auto.
+  Qed.
+
+  Lemma lookup_bind_other : forall {X} (s : list (var * X)) x v y, y <> x -> lookup (bind_var s x v) y = lookup s y.
+  Proof.
+    induction s as [|[z w] t IH]; intros; simpl.
+    - destruct (Nat.eqb x y) eqn:E; auto. apply Nat.eqb_eq in E. congruence.
+    - destruct (Nat.eqb z x) eqn:E; simpl.
+      + apply Nat.eqb_eq in E. subst. destruct (Nat.eqb x y) eqn:E2; auto. apply Nat.eqb_eq in E2. congruence.
+      + destruct (Nat.eqb z y); auto.
+  Qed.
+
+  Lemma lookup_bind_same : forall {X} (s : list (var * X)) x v, lookup (bind_var s x v) x = Some v.
+  Proof.
+    induction s as [|[z w] t IH]; intros; simpl.
+    - now rewrite Nat.eqb_refl.
+    - destruct (Nat.eqb z x) eqn:E; simpl; rewrite E; auto.
+  Qed.
+
+  Lemma lookup_unbind_other : forall {X} (s : list (var * X)) x y, y <> x -> lookup (unbind s x) y = lookup s y.
+  Proof.
+    induction s as [|[z w] t IH]; intros; simpl; auto.
+    destruct (Nat.eqb z x) eqn:E; simpl.
+    - apply Nat.eqb_eq in E. subst. destruct (Nat.eqb x y) eqn:E2; auto. apply Nat.eqb_eq in E2. congruence.
+    - destruct (Nat.eqb z y); auto.
+  Qed.
+
+  Lemma eval_elem_sim : forall h s ps e, AbsStore h s ps -> res_rel (A h) (eval_elem s e) (p_eval_elem ps e).
+  Proof.
+    intros. destruct e; simpl.
+    - eexists; split; eauto; constructor.
+    - pose proof (lookup_abs h s ps y H). destruct (lookup s y), (lookup ps y); try contradiction; simpl; eauto.
+  Qed.
+
+  Lemma eval_elems_sim : forall h s ps es, AbsStore h s ps ->
+    res_rel (Forall2 (A h)) (eval_elems s es) (p_eval_elems ps es).
+  Proof.
+    intros h s ps es H. induction es; simpl.
+    - eexists; split; eauto.
+    - apply (res_rel_bind (A h)); [apply eval_elem_sim; auto|]. intros v pv HV.
+      apply (res_rel_bind (Forall2 (A h))); [apply IHes|]. intros vs pvs HVS. simpl. eexists; split; eauto.
+  Qed.
+
+  Lemma eval_pairs_sim : forall h s ps kvs, AbsStore h s ps ->
+    res_rel (Forall2 (RKV (A h))) (eval_pairs s kvs) (p_eval_pairs ps kvs).
+  Proof.
+    intros h s ps kvs H. induction kvs as [|[k e] t IH]; simpl.
+    - eexists; split; eauto.
+    - apply (res_rel_bind (A h)); [apply eval_elem_sim; auto|]. intros v pv HV.
+      apply (res_rel_bind (Forall2 (RKV (A h)))); [apply IH|]. intros vs pvs HVS. simpl. eexists; split; eauto.
+      constructor; auto. split; auto.
+  Qed.
+
+  Lemma eval_elems_length : forall s es vs, eval_elems s es = Ok vs -> length vs = length es.
+  Proof.
+    induction es; simpl; intros.
+    - inversion H; auto.
+    - destruct (eval_elem s a); try discriminate. simpl in H.
+      destruct (eval_elems s es); try discriminate. simpl in H. inversion H. simpl. f_equal. auto.
+  Qed.
+
+  Lemma target_ok_abs : forall infn h s ps x, AbsStore h s ps -> target_ok infn (mkst h s) x = p_target_ok infn ps x.
+  Proof.
+    intros. unfold target_ok, p_target_ok. destruct infn; auto. simpl.
+    pose proof (lookup_abs h s ps x H). destruct (lookup s x), (lookup ps x); try contradiction; auto.
+  Qed.
+
+  Definition AbsR (h : heap) (r : rout) (pr : prout) : Prop :=
+    match r, pr with
+    | RV v, PRV p => A h v p
+    | RB b, PRB b' => b = b'
+    | _, _ => False
+    end.
+
+  (* outcome of a statement run from state st that may write only the binding x *)
+  Definition StepR (h0 : heap) (s0 : list (var * val)) (x : var) (a : state * rout) (b : list (var * pval) * prout) : Prop :=
+    keeps (length h0) h0 (sheap (fst a)) /\
+    AbsStore (sheap (fst a)) (sstore (fst a)) (fst b) /\
+    AbsR (sheap (fst a)) (snd a) (snd b) /\
+    (forall y, y <> x -> lookup (sstore (fst a)) y = lookup s0 y).
+
+  Lemma assign_sim : forall infn h s ps x h1 v pv,
+    AbsStore h s ps -> keeps (length h) h h1 -> A h1 v pv ->
+    res_rel (StepR h s x)
+      (if negb (target_ok infn (mkst h s) x) then Dom else assign (mkst h s) h1 x v)
+      (if negb (p_target_ok infn ps x) then Dom else p_assign ps x pv).
+  Proof.
+    intros. rewrite (target_ok_abs infn h s ps x H).
+    destruct (p_target_ok infn ps x); simpl; auto.
+    eexists; split; [reflexivity|]. unfold StepR. simpl. splits; auto.
+    - apply bind_var_abs; auto. eapply AbsStore_keeps; eauto.
+    - intros. apply lookup_bind_other. auto.
+  Qed.
+
+  Lemma finish_sim : forall infn h s ps x m p,
+    AbsStore h s ps -> res_rel (VR h) m p ->
+    res_rel (StepR h s x) (finish infn (mkst h s) x m) (p_finish infn ps x p).
+  Proof.
+    intros. unfold finish, p_finish. apply (res_rel_bind (VR h)); auto. intros [h1 v] pv [K HA]. simpl in *.
+    apply assign_sim; auto.
+  Qed.
+
+  Lemma arr_literal_sim : forall h vs pvs, Forall2 (A h) vs pvs ->
+    res_rel (VR h) (arr_literal c o h vs) (Ok (PArr pvs)).
+  Proof.
+    intros h vs pvs HF. unfold arr_literal, make_arr. simpl. set (n := length vs).
+    assert (R0 : read_arr (h ++ [CArr []]) (mkslice (length h) 0 0 n) = Some []).
+    { apply (read_arr_alloc h []). reflexivity. }
+    destruct (go_append_spec (length h) (h ++ [CArr []]) _ [] vs R0) as (h2 & s2 & Ha & K2 & R2 & L2 & C2 & _);
+      simpl; try lia; auto.
+    { rewrite app_length. simpl. lia. }
+    rewrite Ha. simpl. simpl in R2.
+    assert (K : keeps (length h) h h2).
+    { eapply keeps_trans; [apply (keeps_alloc (length h) h (CArr [])); auto|eauto]. }
+    destruct (new_array_spec h h2 s2 vs pvs R2 C2 HF K) as (r & Hnw & HA).
+    rewrite Hnw. simpl. eexists; split; [reflexivity|]. split; auto.
+  Qed.
+
+  Lemma map_literal_sim : forall h vs pvs, Forall2 (RKV (A h)) vs pvs ->
+    res_rel (VR h) (map_literal c o h vs) (Ok (p_map_literal pvs)).
+  Proof.
+    intros h vs pvs HF. unfold map_literal, p_map_literal, new_map_size. set (n := length vs).
+    assert (X : forall h1 m1, keeps (length h) h h1 -> fresh_map (length h) h1 m1 [] ->
+              res_rel (VR h) (set_all c o h1 m1 vs) (Ok (PMap (fold_left (fun m kv => kv_set m (fst kv) (snd kv)) pvs [])))).
+    { intros h1 m1 K1 F1.
+      destruct (set_all_fresh (length h) vs h1 m1 [] F1 (keeps_len _ _ _ K1)) as (h2 & m2 & Hs & K2 & F2).
+      rewrite Hs. eexists; split; [reflexivity|].
+      assert (K : keeps (length h) h h2) by (eapply keeps_trans; eauto).
+      split; simpl; auto. eapply fresh_map_abs; eauto. apply F2_fold_kv_set; auto. }
+    destruct (n <=? msm c).
+    - apply X; auto using keeps_refl. reflexivity.
+    - unfold new_bigmap. simpl. apply X.
+      + eapply keeps_trans; [apply (keeps_alloc (length h) h (CKV [])); auto|].
+        apply (keeps_alloc (length h) (h ++ [CKV []])). rewrite app_length. simpl. lia.
+      + simpl. split; [rewrite app_length; simpl; lia|]. eexists. splits.
+        * unfold map_hdr. rewrite nth_error_app2 by (rewrite app_length; simpl; lia).
+          rewrite app_length. simpl. replace (length h + 1 - (length h + 1)) with 0 by lia. reflexivity.
+        * left. simpl. auto.
+        * simpl. lia.
+        * unfold read_kv. simpl. rewrite nth_error_app1 by (rewrite app_length; simpl; lia).
+          rewrite nth_error_app2, Nat.sub_diag by auto. reflexivity.
+  Qed.
+
+  Lemma VR_here : forall h v p, A h v p -> VR h (h, v) p.
+  Proof. intros. split; simpl; auto using keeps_refl. Qed.
+
+  Lemma val_slice_sim : forall h yv pyv l r, A h yv pyv ->
+    res_rel (VR h) (val_slice c h yv l r) (p_slice pyv l r).
+  Proof.
+    intros h yv pyv l r HY. unfold val_slice, p_slice.
+    pose proof (val_len_abs _ _ _ HY) as HL.
+    inversion HY; subst; try reflexivity; rewrite HL; simpl.
+    - (* nil *)
+      destruct (range_norm 0 l r) as [[a b]| | |]; simpl; auto.
+      eexists; split; [reflexivity|]. apply VR_here. constructor.
+    - destruct (range_norm (length pl) l r) as [[a b]| | |] eqn:E; simpl; auto.
+      destruct (range_norm_ok _ _ _ _ _ E) as [Hab Hbn].
+      destruct (arr_slice_sim h (VArrS l0) pl a b HY Hab Hbn) as (w & Hw & HR). rewrite Hw. simpl. apply HR.
+    - destruct (range_norm (length pl) l r) as [[a b]| | |] eqn:E; simpl; auto.
+      destruct (range_norm_ok _ _ _ _ _ E) as [Hab Hbn].
+      destruct (arr_slice_sim h (VArrB s) pl a b HY Hab Hbn) as (w & Hw & HR). rewrite Hw. simpl. apply HR.
+    - destruct (range_norm (length pl) l r) as [[a b]| | |] eqn:E; simpl; auto.
+      destruct (range_norm_ok _ _ _ _ _ E) as [Hab Hbn].
+      destruct (map_range_sim h (VMapS l0) pl a b HY Hab Hbn) as (w & Hw & HR). rewrite Hw. simpl. apply HR.
+    - destruct (range_norm (length pl) l r) as [[a b]| | |] eqn:E; simpl; auto.
+      destruct (range_norm_ok _ _ _ _ _ E) as [Hab Hbn].
+      destruct (map_range_sim h (VMapB p) pl a b HY Hab Hbn) as (w & Hw & HR). rewrite Hw. simpl. apply HR.
+  Qed.
+
+  Lemma val_rest_sim : forall h yv pyv, A h yv pyv ->
+    res_rel (VR h) (val_rest c h yv) (p_rest pyv).
+  Proof.
+    intros h yv pyv HY. inversion HY; subst; try reflexivity.
+    - simpl. eexists; split; [reflexivity|]. apply VR_here. constructor.
+    - apply (arr_rest_sim h (VArrS l) pl HY).
+    - apply (arr_rest_sim h (VArrB s) pl HY).
+    - apply (map_rest_sim h (VMapS l) pl HY).
+    - apply (map_rest_sim h (VMapB p) pl HY).
+  Qed.
+
+  Lemma val_times_sim : forall h lv plv n, A h lv plv ->
+    res_rel (VR h) (val_times c o h lv n) (p_times plv n).
+  Proof.
+    intros h lv plv n HL. inversion HL; subst; try reflexivity.
+    - simpl. destruct (int64_ok (z * n)); simpl; auto. eexists; split; [reflexivity|]. apply VR_here. constructor.
+    - apply (arr_repeat_sim h (VArrS l) pl n HL).
+    - apply (arr_repeat_sim h (VArrB s) pl n HL).
+  Qed.
+
+  Lemma prim_step_sim : forall infn h s ps p, AbsStore h s ps ->
+    res_rel (StepR h s (prim_target p)) (prim_step c o infn (mkst h s) p) (p_prim_step infn ps p).
+  Proof.
+    intros infn h s ps p HS.
+    destruct p; unfold prim_step, p_prim_step, prim_target; cbn [sheap sstore].
+    - (* PArrLit *)
+      apply finish_sim; auto.
+      apply (res_rel_bind (Forall2 (A h))); [apply eval_elems_sim; auto|]. intros vs pvs HF.
+      apply arr_literal_sim; auto.
+    - (* PMapLit *)
+      apply finish_sim; auto.
+      apply (res_rel_bind (Forall2 (RKV (A h)))); [apply eval_pairs_sim; auto|]. intros vs pvs HF.
+      apply map_literal_sim; auto.
+    - (* PCopy *)
+      apply finish_sim; auto.
+      pose proof (eval_elem_sim h s ps (EVar y) HS) as HE.
+      destruct (p_eval_elem ps (EVar y)); simpl in *; try (rewrite HE; reflexivity).
+      destruct HE as (v & -> & HA). simpl. eexists; split; [reflexivity|]. apply VR_here; auto.
+    - (* PIdxSet *)
+      apply (res_rel_bind (A h)); [apply eval_elem_sim; auto|]. intros v pv HV.
+      apply (res_rel_bind (A h)); [apply eval_elem_sim; auto|]. intros xv pxv HX.
+      apply (res_rel_bind (VR h)); [apply val_idx_set_sim; auto|]. intros [h1 nv] pnv [K HA]. simpl in *.
+      eexists; split; [reflexivity|]. unfold StepR. simpl. splits; auto.
+      + apply bind_var_abs; auto. eapply AbsStore_keeps; eauto.
+      + eapply Abs_keeps; eauto.
+      + intros. apply lookup_bind_other. auto.
+    - (* PPlus *)
+      apply finish_sim; auto.
+      apply (res_rel_bind (A h)); [apply eval_elem_sim; auto|]. intros lv plv HL.
+      apply (res_rel_bind (A h)); [apply eval_elem_sim; auto|]. intros rv prv HR.
+      apply val_plus_sim; auto.
+    - (* PRepeat *)
+      apply finish_sim; auto.
+      apply (res_rel_bind (A h)); [apply eval_elem_sim; auto|]. intros lv plv HL.
+      apply val_times_sim; auto.
+    - (* PSlice *)
+      apply finish_sim; auto.
+      apply (res_rel_bind (A h)); [apply eval_elem_sim; auto|]. intros yv pyv HY.
+      apply val_slice_sim; auto.
+    - (* PRest *)
+      apply finish_sim; auto.
+      apply (res_rel_bind (A h)); [apply eval_elem_sim; auto|]. intros yv pyv HY.
+      apply val_rest_sim; auto.
+    - (* PGet *)
+      apply finish_sim; auto.
+      apply (res_rel_bind (A h)); [apply eval_elem_sim; auto|]. intros yv pyv HY.
+      pose proof (val_get_sim h yv pyv i HY) as HG.
+      destruct (p_get pyv i); simpl in *; try (rewrite HG; reflexivity).
+      destruct HG as (v & -> & HA). simpl. eexists; split; [reflexivity|]. apply VR_here; auto.
+    - (* PDel *)
+      pose proof (lookup_abs h s ps x HS) as HL.
+      destruct (lookup s x) as [xv|], (lookup ps x) as [pxv|]; try contradiction.
+      + rewrite (is_map_abs _ _ _ HL).
+        destruct pxv; simpl; auto.
+        destruct (map_delete_sim h xv l k HL) as (h1 & m1 & ch & Hd & K & HM).
+        rewrite Hd. simpl.
+        destruct (kv_del l k) as [l'|].
+        * destruct HM as [-> HM]. eexists; split; [reflexivity|]. unfold StepR. simpl. splits; auto.
+          -- apply bind_var_abs; auto. eapply AbsStore_keeps; eauto.
+          -- intros. apply lookup_bind_other. auto.
+        * subst ch. eexists; split; [reflexivity|]. unfold StepR. simpl. splits; auto.
+          eapply AbsStore_keeps; eauto.
+      + eexists; split; [reflexivity|]. unfold StepR. simpl. splits; auto using keeps_refl.
+    - (* PIncr *)
+      apply (res_rel_bind (A h)); [apply eval_elem_sim; auto|]. intros xv pxv HX.
+      apply (res_rel_bind (A h)); [apply val_get_sim; auto|]. intros ev pev HE.
+      apply (res_rel_bind (VR h)); [apply val_plus_sim; auto; constructor|]. intros [h1 nv] pnv [K1 HN]. simpl in *.
+      apply (res_rel_bind (VR h1)); [apply val_idx_set_sim; auto; eapply Abs_keeps; eauto|].
+      intros [h2 nx] pnx [K2 HNX]. simpl in *.
+      assert (K : keeps (length h) h h2).
+      { eapply keeps_trans; eauto. eapply keeps_le; eauto. eapply keeps_len; eauto. }
+      eexists; split; [reflexivity|]. unfold StepR. simpl. splits; auto.
+      + apply bind_var_abs; auto. eapply AbsStore_keeps; eauto.
+      + eapply Abs_keeps; eauto.
+      + intros. apply lookup_bind_other. auto.
+    - (* PUnbind *)
+      destruct infn; simpl; auto.
+      pose proof (lookup_abs h s ps x HS) as HL.
+      destruct (lookup s x) as [xv|], (lookup ps x) as [pxv|]; try contradiction.
+      + eexists; split; [reflexivity|]. unfold StepR. simpl. splits; auto using keeps_refl.
+        * apply unbind_abs; auto.
+        * intros. apply lookup_unbind_other. auto.
+      + eexists; split; [reflexivity|]. unfold StepR. simpl. splits; auto using keeps_refl.
+  Qed.
+
+  Definition StatR (h : heap) (a : status) (b : pstatus) : Prop :=
+    match a, b with
+    | Done r, PDone pr => AbsR h r pr
+    | Failed, PFailed | OutDom, POutDom | IsStuck, PIsStuck => True
+    | _, _ => False
+    end.
+
+  (* what a run of statements guarantees, from heap h and store s, when only the bindings in ws may be written *)
+  Definition RunR (h : heap) (s : list (var * val)) (ws : list var)
+             (a : state * status) (b : list (var * pval) * pstatus) : Prop :=
+    keeps (length h) h (sheap (fst a)) /\
+    AbsStore (sheap (fst a)) (sstore (fst a)) (fst b) /\
+    StatR (sheap (fst a)) (snd a) (snd b) /\
+    (forall y, ~ In y ws -> lookup (sstore (fst a)) y = lookup s y).
+
+  Lemma AbsR_keeps : forall h h' r pr, AbsR h r pr -> keeps (length h) h h' -> AbsR h' r pr.
+  Proof. intros. destruct r, pr; simpl in *; auto. eapply Abs_keeps; eauto. Qed.
+
+  Lemma exec_prims_sim : forall infn body h s ps last plast,
+    AbsStore h s ps -> AbsR h last plast ->
+    RunR h s (map prim_target body) (exec_prims c o infn (mkst h s) body last) (p_exec_prims infn ps body plast).
+  Proof.
+    intros infn body. induction body as [|p t IH]; intros h s ps last plast HS HL; simpl.
+    - unfold RunR. simpl. splits; auto using keeps_refl.
+    - pose proof (prim_step_sim infn h s ps p HS) as HP.
+      destruct (p_prim_step infn ps p) as [[ps1 pr]| | |]; simpl in HP.
+      + destruct HP as ([[h1 s1] r] & -> & K & HS1 & HR & HF). simpl in *.
+        specialize (IH h1 s1 ps1 r pr HS1 HR). destruct IH as (K2 & HS2 & HST & HF2).
+        unfold RunR. splits; auto.
+        * eapply keeps_trans; eauto. eapply keeps_le; eauto. eapply keeps_len; eauto.
+        * intros y Hy. rewrite HF2 by (intro; apply Hy; right; auto). apply HF. intro; apply Hy; left; auto.
+      + rewrite HP. unfold RunR. simpl. splits; auto using keeps_refl.
+      + rewrite HP. unfold RunR. simpl. splits; auto using keeps_refl.
+      + rewrite HP. unfold RunR. simpl. splits; auto using keeps_refl.
+  Qed.
+
+  Lemma RunR_weaken : forall h s ws ws' a b, RunR h s ws a b -> (forall y, In y ws -> In y ws') -> RunR h s ws' a b.
+  Proof. intros h s ws ws' a b (K & HS & HST & HF) Hin. unfold RunR. splits; auto. Qed.
+
+  Lemma for_loop_sim : forall e body rem fuel h s ps cur last plast,
+    AbsStore h s ps -> AbsR h last plast ->
+    (A h cur (PArr rem) \/ (cur = VNil /\ rem = [])) -> fuel = length rem ->
+    RunR h s (e :: map prim_target body)
+         (for_loop c o fuel (mkst h s) e cur body last) (p_for_loop ps e rem body plast).
+  Proof.
+    intros e body rem. induction rem as [|pv t IH]; intros fuel h s ps cur last plast HS HL HC Hf; subst fuel; simpl.
+    - unfold RunR. simpl. splits; auto using keeps_refl.
+    - destruct HC as [HC|[_ HC]]; [|discriminate].
+      pose proof (arr_len_abs _ _ _ HC) as Hlen. simpl in Hlen. rewrite Hlen. simpl.
+      pose proof (arr_get_sim h cur (pv :: t) 0 HC) as HG. unfold p_get, idx_norm in HG. simpl in HG.
+      destruct HG as (v & Hg & HV). simpl. rewrite Hg.
+      pose proof (arr_rest_sim h cur (pv :: t) HC) as HRs. unfold p_rest in HRs. simpl length in HRs.
+      assert (HRs' : exists h1 rest, arr_rest c h cur = Ok (h1, rest) /\ keeps (length h) h h1 /\
+                      (A h1 rest (PArr t) \/ (rest = VNil /\ t = []))).
+      { destruct t as [|q t']; simpl in HRs; destruct HRs as ([h1 rest] & Hr & K & HA); simpl in *;
+          exists h1, rest; splits; auto.
+        right. inversion HA; auto. }
+      destruct HRs' as (h1 & rest & -> & K1 & HRest).
+      set (s1 := bind_var s e v).
+      assert (HS1 : AbsStore h1 s1 (bind_var ps e pv)).
+      { apply bind_var_abs; [eapply AbsStore_keeps; eauto|eapply Abs_keeps; eauto]. }
+      pose proof (exec_prims_sim false body h1 s1 (bind_var ps e pv) (RV VNil) (PRV PNil) HS1 ltac:(constructor)) as HE.
+      destruct (exec_prims c o false (mkst h1 s1) body (RV VNil)) as [[h2 s2] status] eqn:E1.
+      destruct (p_exec_prims false (bind_var ps e pv) body (PRV PNil)) as [ps2 pstatus] eqn:E2.
+      destruct HE as (K2 & HS2 & HST & HF). simpl in *.
+      assert (K12 : keeps (length h) h h2).
+      { eapply keeps_trans; eauto. eapply keeps_le; eauto. eapply keeps_len; eauto. }
+      assert (HFr : forall y, ~ In y (e :: map prim_target body) -> lookup s2 y = lookup s y).
+      { intros y Hy. rewrite HF by (intro; apply Hy; right; auto). unfold s1. apply lookup_bind_other.
+        intro; apply Hy; left; auto. }
+      destruct status as [r| | |], pstatus as [pr| | |]; simpl in HST; try contradiction;
+        try (unfold RunR; simpl; splits; auto; fail).
+      assert (HC2 : A h2 rest (PArr t) \/ (rest = VNil /\ t = [])).
+      { destruct HRest as [HA|HA]; auto. left. eapply Abs_keeps; eauto. }
+      specialize (IH (length t) h2 s2 ps2 rest r pr HS2 HST HC2 eq_refl).
+      destruct IH as (K3 & HS3 & HST3 & HF3).
+      unfold RunR. splits; auto.
+      + eapply keeps_trans; eauto. eapply keeps_le; eauto. eapply keeps_len; eauto.
+      + intros y Hy. rewrite HF3; auto.
+  Qed.
+
+  Lemma is_array_PArr : forall h v p, A h v p -> is_array v = true -> exists l, p = PArr l.
+  Proof. intros. inversion H; subst; simpl in *; try discriminate; eauto. Qed.
+
+  Opaque param_var.
+
+  Lemma op_step_sim : forall op h s ps, AbsStore h s ps ->
+    RunR h s (op_writes op) (op_step c o (mkst h s) op) (p_op_step ps op).
+  Proof.
+    intros op h s ps HS. destruct op as [p|e y body|r y body]; simpl.
+    - apply (exec_prims_sim false [p] h s ps (RV VNil) (PRV PNil)); auto. constructor.
+    - pose proof (lookup_abs h s ps y HS) as HL.
+      destruct (lookup s y) as [yv|], (lookup ps y) as [pyv|]; try contradiction.
+      + destruct (is_array yv) eqn:EA.
+        * destruct (is_array_PArr _ _ _ HL EA) as [l ->].
+          apply for_loop_sim; auto; [constructor|]. apply (arr_len_abs _ _ _ HL).
+        * rewrite (is_array_abs _ _ _ HL) in EA. destruct pyv; simpl in EA; try discriminate;
+            unfold RunR; simpl; splits; auto using keeps_refl.
+      + unfold RunR; simpl; splits; auto using keeps_refl.
+    - pose proof (lookup_abs h s ps y HS) as HL.
+      destruct (lookup s y) as [yv|] eqn:Ey, (lookup ps y) as [pyv|] eqn:Epy; try contradiction;
+        [|unfold RunR; simpl; splits; auto using keeps_refl].
+      assert (Hint : (exists z, yv = VInt z /\ pyv = PInt z) \/ ((forall z, yv <> VInt z) /\ (forall z, pyv <> PInt z))).
+      { inversion HL; subst; [left; eauto| right; split; intros; discriminate ..]. }
+      destruct Hint as [(z & -> & ->)|[Hn1 Hn2]]; [unfold RunR; simpl; splits; auto using keeps_refl|].
+      pose proof (lookup_abs h s ps param_var HS) as HP.
+      assert (Hbody :
+        RunR h s (r :: param_var :: map prim_target body)
+          (match lookup s param_var with
+           | Some _ => (mkst h s, OutDom)
+           | None =>
+             match exec_prims c o true (mkst h ((param_var, yv) :: s)) body (RV VNil) with
+             | (st2, Done _) =>
+               match lookup (sstore st2) param_var with
+               | Some pv => (mkst (sheap st2) (bind_var (unbind (sstore st2) param_var) r pv), Done (RV pv))
+               | None => (st2, IsStuck)
+               end
+             | (st2, st) => (mkst (sheap st2) (unbind (sstore st2) param_var), st)
+             end
+           end)
+          (match lookup ps param_var with
+           | Some _ => (ps, POutDom)
+           | None =>
+             match p_exec_prims true ((param_var, pyv) :: ps) body (PRV PNil) with
+             | (s2, PDone _) =>
+               match lookup s2 param_var with
+               | Some pv => (bind_var (unbind s2 param_var) r pv, PDone (PRV pv))
+               | None => (s2, PIsStuck)
+               end
+             | (s2, st) => (unbind s2 param_var, st)
+             end
+           end)).
+      { destruct (lookup s param_var), (lookup ps param_var); try contradiction;
+          [unfold RunR; simpl; splits; auto using keeps_refl|].
+        assert (HS1 : AbsStore h ((param_var, yv) :: s) ((param_var, pyv) :: ps)).
+        { constructor; auto; split; auto. }
+        pose proof (exec_prims_sim true body h _ _ (RV VNil) (PRV PNil) HS1 ltac:(constructor)) as HE.
+        destruct (exec_prims c o true (mkst h ((param_var, yv) :: s)) body (RV VNil)) as [[h2 s2] status].
+        destruct (p_exec_prims true ((param_var, pyv) :: ps) body (PRV PNil)) as [ps2 pstatus].
+        destruct HE as (K2 & HS2 & HST & HF). simpl in *.
+        assert (HFr : forall y0, ~ In y0 (r :: param_var :: map prim_target body) ->
+                      lookup (unbind s2 param_var) y0 = lookup s y0).
+        { intros y0 Hy. rewrite lookup_unbind_other by (intro; apply Hy; right; left; auto).
+          rewrite HF by (intro; apply Hy; right; right; auto).
+          destruct (Nat.eqb param_var y0) eqn:E; auto. apply Nat.eqb_eq in E. exfalso. apply Hy. right; left; auto. }
+        destruct status as [r0| | |], pstatus as [pr0| | |]; simpl in HST; try contradiction;
+          try (unfold RunR; simpl; splits; auto using unbind_abs; fail).
+        pose proof (lookup_abs h2 s2 ps2 param_var HS2) as HP2.
+        destruct (lookup s2 param_var) as [pv|], (lookup ps2 param_var) as [ppv|]; try contradiction.
+        - unfold RunR; simpl; splits; auto.
+          + apply bind_var_abs; auto. apply unbind_abs; auto.
+          + intros y0 Hy. rewrite lookup_bind_other by (intro; apply Hy; left; auto). apply HFr; auto.
+        - unfold RunR; simpl; splits; auto.
+          intros y0 Hy. rewrite HF by (intro; apply Hy; right; right; auto).
+          destruct (Nat.eqb param_var y0) eqn:E; auto. apply Nat.eqb_eq in E. exfalso. apply Hy. right; left; auto. }
+      destruct yv; try (exfalso; eapply Hn1; reflexivity); destruct pyv; try (exfalso; eapply Hn2; reflexivity);
+        apply Hbody.
+  Qed.
+
+  Lemma run_from_sim : forall ops h s ps, AbsStore h s ps ->
+    AbsStore (sheap (run_from c o (mkst h s) ops)) (sstore (run_from c o (mkst h s) ops)) (p_run_from ps ops).
+  Proof.
+    induction ops as [|op t IH]; intros h s ps HS; simpl; auto.
+    pose proof (op_step_sim op h s ps HS) as (K & HS1 & _ & _).
+    destruct (op_step c o (mkst h s) op) as [[h1 s1] status]. simpl in *.
+    apply IH. auto.
+  Qed.
 End SIM.
+
+(* ------------------------------------------------------------------ the statements used by props/C06.v *)
+
+Definition AbsState (c : cfg) (st : state) (ps : list (var * pval)) : Prop :=
+  AbsStore c (sheap st) (sstore st) ps.
+
+(* what binding y evaluates to in state st *)
+Definition reads (c : cfg) (st : state) (y : var) (p : pval) : Prop :=
+  exists v, lookup (sstore st) y = Some v /\ Abs (Some (msa c)) (sheap st) v p.
+
+Lemma reads_fun : forall c st y p p', reads c st y p -> reads c st y p' -> p = p'.
+Proof.
+  intros c st y p p' (v & Hv & HA) (v' & Hv' & HA'). rewrite Hv in Hv'. inversion Hv'; subst.
+  eapply Abs_fun; eauto.
+Qed.
+
+Lemma refinement : forall c o, cow c = true -> good o -> forall ops,
+  AbsState c (run c o ops) (run_pure ops).
+Proof.
+  intros c o Hc Hg ops. unfold AbsState, run, run_pure, empty_state.
+  apply (run_from_sim c o Hc Hg ops [] [] []). constructor.
+Qed.
+
+Lemma AbsState_reads : forall c st ps y, AbsState c st ps ->
+  forall p, reads c st y p <-> lookup ps y = Some p.
+Proof.
+  intros c st ps y HS p. pose proof (lookup_abs c (sheap st) (sstore st) ps y HS) as HL.
+  split.
+  - intros (v & Hv & HA). rewrite Hv in HL. destruct (lookup ps y); [|contradiction].
+    f_equal. eapply Abs_fun; eauto.
+  - intros Hp. rewrite Hp in HL. destruct (lookup (sstore st) y) eqn:E; [|contradiction].
+    exists v. split; auto.
+Qed.
+
+Lemma step_frame : forall c o, cow c = true -> good o -> forall ops op y,
+  ~ In y (op_writes op) ->
+  let st := run c o ops in
+  let st' := fst (op_step c o st op) in
+  forall p, reads c st y p -> reads c st' y p.
+Proof.
+  intros c o Hc Hg ops op y Hy st st' p (v & Hv & HA).
+  pose proof (refinement c o Hc Hg ops) as HS. fold st in HS. unfold AbsState in HS.
+  destruct st as [h s] eqn:Est. simpl in *.
+  pose proof (op_step_sim c o Hc Hg op h s (run_pure ops) HS) as (K & _ & _ & HF).
+  exists v. split.
+  - unfold st'. rewrite HF; auto.
+  - eapply Abs_keeps; eauto.
+Qed.
+
+Lemma read_store_sound : forall fuel h s ps, read_store fuel h s = Some ps ->
+  Forall2 (fun a b => fst a = fst b /\ Abs None h (snd a) (snd b)) s ps.
+Proof.
+  induction s as [|[x v] t IH]; intros ps H; simpl in H.
+  - inversion H. constructor.
+  - destruct (read fuel h v) eqn:E1; [|discriminate]. destruct (read_store fuel h t) eqn:E2; [|discriminate].
+    inversion H; subst. constructor; auto. split; auto. simpl. eapply read_sound; eauto.
+Qed.
+
+Lemma refinement_exec : forall c o, cow c = true -> good o -> forall ops fuel ps,
+  let st := run c o ops in
+  read_store fuel (sheap st) (sstore st) = Some ps -> ps = run_pure ops.
+Proof.
+  intros c o Hc Hg ops fuel ps st H.
+  pose proof (refinement c o Hc Hg ops) as HS. fold st in HS. unfold AbsState, AbsStore in HS.
+  pose proof (read_store_sound _ _ _ _ H) as HR.
+  revert HS HR. generalize (run_pure ops) as qs. generalize (sstore st) as s. clear H.
+  intros s qs HS. revert ps. induction HS as [|[x v] [x' q] t qt [H1 H2] HF IH]; intros ps HR; inversion HR; subst; auto.
+  destruct y as [x'' p'']. simpl in *. destruct H3 as [H3 H4]. subst.
+  f_equal; auto. f_equal.
+  eapply Abs_fun; eauto. eapply (proj1 (Abs_forget_all _ _)); eauto.
+Qed.
+
+Lemma plus_frame : forall c o, cow c = true -> good o -> forall ops x y z,
+  z <> x -> z <> y ->
+  let st := run c o ops in
+  let st' := fst (op_step c o st (OPrim (PPlus z x (EVar y)))) in
+  forall p, (reads c st x p -> reads c st' x p) /\ (reads c st y p -> reads c st' y p).
+Proof.
+  intros c o Hc Hg ops x y z Hx Hy st st' p. split; intros HR.
+  - apply (step_frame c o Hc Hg ops (OPrim (PPlus z x (EVar y))) x); auto. simpl. intros [H|[]]. congruence.
+  - apply (step_frame c o Hc Hg ops (OPrim (PPlus z x (EVar y))) y); auto. simpl. intros [H|[]]. congruence.
+Qed.
+
+Lemma reads_pure : forall c o, cow c = true -> good o -> forall ops y p,
+  reads c (run c o ops) y p <-> lookup (run_pure ops) y = Some p.
+Proof. intros. apply AbsState_reads. apply refinement; auto. Qed.
